@@ -60,14 +60,21 @@ def kwargs_from_call(
     kwdefaults: Dict[str, Any],
     args: Tuple[Any, ...],
     kwargs: Dict[str, Any],
+    positional_only: Optional[Set[str]] = None,
 ) -> MutableMapping[str, Any]:
     """
     Inspect the input values received at the wrapper for the actual function call.
 
-    :param param_names: parameter (*i.e.* argument) names of the original (decorated) function
+    :param param_names:
+        names of the parameters of the original (decorated) function which can be bound to the positional
+        arguments of a call, in the order of the signature (*i.e.*, the keyword-only parameters and
+        the variable keyword parameter must not be listed)
     :param kwdefaults: default argument values of the original function
     :param args: arguments supplied to the call
     :param kwargs: keyword arguments supplied to the call
+    :param positional_only:
+        names of the positional-only parameters; a keyword argument of the call with such a name is collected
+        by the variable keyword parameter of the function and does not set the positional-only parameter
     :return: resolved arguments as they would be passed to the function
     """
     # (Marko Ristin, 2020-12-01)
@@ -98,6 +105,9 @@ def kwargs_from_call(
             pass  # pragma: no cover
 
     for key, val in kwargs.items():
+        if positional_only is not None and key in positional_only:
+            continue
+
         resolved_kwargs[key] = val
 
     return resolved_kwargs
@@ -722,7 +732,25 @@ def decorate_with_checker(func: CallableT) -> CallableT:
             "a reserved placeholder for keyword arguments in the condition."
         )
 
-    param_names = list(sign.parameters.keys())
+    # Only these parameters can be bound to the positional arguments of a call. The positional arguments beyond
+    # the named ones are collected by the variable positional parameter (if any) and must not be matched against
+    # the keyword-only parameters which follow it in the signature.
+    param_names = [
+        param.name
+        for param in sign.parameters.values()
+        if param.kind
+        in (
+            inspect.Parameter.POSITIONAL_ONLY,
+            inspect.Parameter.POSITIONAL_OR_KEYWORD,
+            inspect.Parameter.VAR_POSITIONAL,
+        )
+    ]
+
+    positional_only = {
+        param.name
+        for param in sign.parameters.values()
+        if param.kind == inspect.Parameter.POSITIONAL_ONLY
+    }
 
     # Determine the default argument values
     kwdefaults = resolve_kwdefaults(sign=sign)
@@ -772,6 +800,7 @@ def decorate_with_checker(func: CallableT) -> CallableT:
                     kwdefaults=kwdefaults,
                     args=args,
                     kwargs=kwargs,
+                    positional_only=positional_only,
                 )
 
                 type_error = _assert_resolved_kwargs_valid(
@@ -848,6 +877,7 @@ def decorate_with_checker(func: CallableT) -> CallableT:
                     kwdefaults=kwdefaults,
                     args=args,
                     kwargs=kwargs,
+                    positional_only=positional_only,
                 )
 
                 type_error = _assert_resolved_kwargs_valid(
